@@ -55,6 +55,9 @@ def simplex(rng, k, denom=20, allow_zero=True):
     return out
 
 
+SEPARATOR_NAMES = ["Lin\x1fWu", "a,b", "x|y", "p;q", "u\tv", "d:e", "s/t", "o o", "(q)", "'r'", "k-z", "m.n"]
+
+
 def gen_case(rng, gens=GENERATORS, max_total=6):
     gen = rng.choice(list(gens))
     N = wchoice(rng, [(1, 2), (2, 2), (3, 2), (5, 2), (17, 3), (100, 1), (rng.randint(4, 60), 4), (rng.choice([250, 999, 1000, 1001]), 0.4)])
@@ -62,6 +65,9 @@ def gen_case(rng, gens=GENERATORS, max_total=6):
     if gen in NO_BLOCS:
         n = rng.randint(1, 5 if gen in ("ImpartialCulture", "ImpartialAnonymousCulture", "BallotSimplex_from_point") else 6)
         cands = ["c%d" % i for i in range(n)]
+        if rng.random() < 0.15:
+            # names carrying the characters people join and split on (unit separator, tab, comma, pipe, ...)
+            cands = rng.sample(SEPARATOR_NAMES, n)
         rng.shuffle(cands)
         case["candidates"] = cands
         if gen == "BallotSimplex_from_point":
@@ -70,6 +76,8 @@ def gen_case(rng, gens=GENERATORS, max_total=6):
         if gen in ("Spatial", "ClusteredSpatial"):
             case["defaults"] = rng.random() < 0.3
             case["dim"] = rng.randint(1, 3)
+            # candidates drawn from a coarse grid: several of them co-located, i.e. exactly equidistant from every voter
+            case["grid"] = (not case["defaults"]) and rng.random() < 0.15
             if gen == "ClusteredSpatial":
                 per = [rng.randint(0, 8) for _ in cands]
                 if sum(per) == 0:
@@ -86,6 +94,8 @@ def gen_case(rng, gens=GENERATORS, max_total=6):
     if rng.random() < 0.3:
         # candidate names of very different lengths (and with spaces): anything that stores names in fixed-width arrays shows here
         pools = {"A": ["Al", "Bo", "Cy"], "B": ["Charlotte", "Dominique St-Pierre", "Ev"], "C": ["x", "Maximilian", "Zoë Q"]}
+        if rng.random() < 0.3:
+            pools = {"A": ["Lin\x1fWu", "a,b", "x|y"], "B": ["p;q", "u\tv", "d:e"], "C": ["s/t", "o o", "(q)"]}
         slates = {b: pools[b][:s] for b, s in zip(blocs, sizes)}
     props = dict(zip(blocs, simplex(rng, nb)))
     if gen == "CambridgeSampler":
@@ -178,6 +188,10 @@ def build(case):
             d = case.get("dim", 2)
             extra = {"distance": DISTANCES[case["distance"]]} if case.get("distance") else {}
             off = float(case.get("offset", 0.0))  # positions far from the origin relative to their spread (map coordinates)
+            if case.get("grid"):
+                g = bg.Spatial(candidates=list(case["candidates"]), voter_dist=np.random.normal, voter_dist_kwargs={"loc": off, "scale": 1.0, "size": d},
+                               candidate_dist=np.random.randint, candidate_dist_kwargs={"low": int(off), "high": int(off) + 2, "size": d}, **extra)
+                return lambda: g.generate_profile(N)
             g = bg.Spatial(candidates=list(case["candidates"]), voter_dist=np.random.normal, voter_dist_kwargs={"loc": off, "scale": 1.0, "size": d},
                            candidate_dist=np.random.uniform, candidate_dist_kwargs={"low": off - 1.0, "high": off + 1.0, "size": d}, **extra)
         return lambda: g.generate_profile(N)
@@ -188,6 +202,11 @@ def build(case):
             d = case.get("dim", 2)
             extra = {"distance": DISTANCES[case["distance"]]} if case.get("distance") else {}
             off = float(case.get("offset", 0.0))
+            if case.get("grid"):
+                g = bg.ClusteredSpatial(candidates=list(case["candidates"]), voter_dist=np.random.normal, voter_dist_kwargs={"scale": 0.5, "size": d},
+                                        candidate_dist=np.random.randint, candidate_dist_kwargs={"low": int(off), "high": int(off) + 2, "size": d}, **extra)
+                per = dict(case["per_candidate"])
+                return lambda: g.generate_profile_with_dict(per)
             g = bg.ClusteredSpatial(candidates=list(case["candidates"]), voter_dist=np.random.normal, voter_dist_kwargs={"scale": 0.5, "size": d},
                                     candidate_dist=np.random.uniform, candidate_dist_kwargs={"low": off, "high": off + 1.0, "size": d}, **extra)
         per = dict(case["per_candidate"])
